@@ -36,10 +36,12 @@ STALE_ROW = "00000000000000000000000000000000000000000000000000000000deadbeef;99
 def surroundings(datadir, coin, callback, start, end, verify):
     """Deterministic per (case directory, options): which harmless variation of the surroundings this run gets. Both must not change
     any result: (a) left-over *.tmp files of an interrupted earlier run of the same callback, longer than most outputs, in the dump
-    folder; (b) -v / -vv (more log lines only)."""
+    folder; (b) -v / -vv (more log lines only); (c) the size of the worker pool (RAYON_NUM_THREADS 1, 2, 3 or the
+    default: with one worker every parallel job holds many items and runs them in order, which makes anything that leaks from one
+    item to the next deterministic)."""
     key = "%s|%s|%s|%s|%s|%s" % (os.path.basename(os.path.dirname(os.path.abspath(datadir))), coin, callback, start, end, verify)
     h = zlib.crc32(key.encode())
-    return (h % 3 == 0), (0, 0, 0, 0, 1, 2)[(h >> 8) % 6]
+    return (h % 3 == 0), (0, 0, 0, 0, 1, 2)[(h >> 8) % 6], (None, None, "1", None, "2", "3")[(h >> 16) % 6]
 
 
 def run_cb(binary, datadir, coin, callback, dump=None, start=None, end=None, verify=False, env=None, log=None, vary=True, **kw):
@@ -50,7 +52,9 @@ def run_cb(binary, datadir, coin, callback, dump=None, start=None, end=None, ver
         e["RBP_VERIF_LOG"] = log
         if os.path.exists(log):
             os.unlink(log)
-    plant, verbosity = surroundings(datadir, coin, callback, start, end, verify) if vary and os.environ.get("VERIF_NO_SURROUNDINGS") is None else (False, 0)
+    plant, verbosity, threads = surroundings(datadir, coin, callback, start, end, verify) if vary and os.environ.get("VERIF_NO_SURROUNDINGS") is None else (False, 0, None)
+    if threads and "RAYON_NUM_THREADS" not in e:
+        e["RAYON_NUM_THREADS"] = threads
     if plant and dump and not os.listdir(dump):
         for name in TMP_NAMES.get(callback, []):
             with open(os.path.join(dump, name), "w") as f:
